@@ -52,6 +52,7 @@ Explains(cfg, e) ==
               /\ cfg.kind = "zigzag" /\ cfg.m >= 1
               /\ Len(r.sa) = 2 * cfg.m + 1
               /\ \A x \in 1..(2 * cfg.m + 1) : r.sa[x] = ZigzagSAat(cfg.m, x - 1)
+         [] c.op = "suffix_array_perm" -> cfg.kind = "int" /\ PermText(t) /\ PermSAOK(r.sa, t)
          [] c.op = "suffix_array_int" -> cfg.kind = "int" /\ DenseInt(t) /\ IsValidSA(r.sa, t)
          [] c.op = "lcp" -> /\ SingleSentinel(t) /\ n >= 2
                             /\ IsPerm(c.a.sa, n)
